@@ -64,6 +64,41 @@ CLAIMS = {
   text="Decides that in the client UDP loop the timestamp update and the callback are reachable only through the source-IP and source-port checks, that the server delivers only to the callback registered for the datagram's exact (IP, port), that the peer table is written only by add/remove under its lock, that an existing session is granted only on the edge where IP and zone equal the creator's, and that a foreign connection is refused first thing with 4xx and an error. Does not decide IPv4-mapped normalisation.",
   note="Trusts: net.IP.Equal semantics.",
   ref="3 C19"),
+ "C04": dict(
+  technique="SSA dataflow on reader functions (full-read discipline, limit comparison provenance), tunnel pairing path queries, zone-domain (difference-bound) abstract interpretation of index/slice bounds with compiler bounds-check prefilter",
+  text="Decides that every fixed-size element of the RTSP framing is read with a full read (io.ReadFull / ReadBytes / Peek contracts) and never with a bare Read, that every length taken from the wire is compared with its documented maximum before it sizes a buffer or drives a loop (header count per entry, not per key), that the HTTP tunnel pairs the two halves by the session cookie before use, and that no index or slice expression in pkg/base, pkg/conn and the base64 reader can go out of bounds. Does not decide that every well-formed message is accepted.",
+  note="Trusts: bufio.Reader contracts (Peek / ReadByte / Discard); the reviewed bounds table rows for these packages; go/ssa lowering.",
+  ref="3 C04"),
+ "C05": dict(
+  technique="registry exhaustiveness (types implementing Format vs constructor switch), sibling agreement between FMTP() writers and unmarshal() readers (key to field), map-range commutativity, typestate of the SDP reader, zone-domain bounds analysis",
+  text="Decides structural necessary conditions of the SDP round trip: every format type is constructible by format.Unmarshal; each fmtp key a format writes from a field is read back into the same field (including keys written through a local literal table); no SDP or format parser lets the parsed value depend on map iteration order; the SDP reader reaches 'latest media / time description' accessors only after one was appended; no index or slice expression in the SDP, description, format, MIKEY and header packages can go out of bounds. Does not decide equality of the parsed-back value.",
+  note="Trusts: the reviewed bounds table; pion/sdp types; mediacommon codec config parsers.",
+  ref="3 C05"),
+ "C10": dict(
+  technique="boolean path enumeration of auth.Verify (parameter influence), dominance of the URL relaxation gate, who-may-write on the nonce, status/close path queries, retry counter provenance",
+  text="Decides that every credential component (user, realm, nonce, URI, method, response) influences the verdict of Verify on every accepting path; that the URL relaxation applies only to SETUP with the documented control-attribute shape; that a connection's nonce is written once; that a failed authentication answers 401 without closing until the failure budget is spent; that the client retries with credentials exactly once per request; that Basic credentials are cut at the first colon. Does not decide digest arithmetic.",
+  note="Trusts: crypto/md5, crypto/sha256, encoding/base64; constant-time comparison is not examined.",
+  ref="3 C10"),
+ "C12": dict(
+  technique="VTA call-graph reachability of panic sites from client goroutines and API, correlated nil-guard path queries, discarded-error analysis, reply pairing, timer placement, zone-domain bounds analysis of all response / SDP / header parsers",
+  text="Decides that no stub panic is reachable from client goroutines or API entry points, that every dereference of an optional response field (Transport ports, SSRC, Content-Base, session header) is guarded on every path, that no (value, error) result is used with its error dropped, that every API request receives exactly one reply, that the response deadline is armed once outside the read loop, that writer state is only switched from the run loop, and that no index or slice expression in the parsers a server's bytes reach can go out of bounds.",
+  note="Trusts: VTA soundness (no unsafe / reflection); the reviewed panic table, bounds table and discarded-error table; pion/rtp, pion/rtcp parsers.",
+  ref="3 C12"),
+ "C14": dict(
+  technique="lockset analysis, masked-index provenance on the reorder ring, operand-type rule for sequence arithmetic, consecutive-counter reset path queries",
+  text="Decides that every mutable field of the RTP receiver is touched only under its mutex (lock-held helpers called only with it held), that every index into the reorder ring is masked with len(buffer)-1 at the point of use or is the position field that only ever holds a masked value, that differences of sequence numbers are computed in uint16 before being reinterpreted (never on widened copies), and that a counter of consecutive late packets is zeroed on every path that does not increment it. Does not decide the numerical content of receiver reports or the NTP mapping.",
+  note="Trusts: the ring length is a power of two (constructor argument); NTP / RTP clock arithmetic is not examined.",
+  ref="3 C14"),
+ "C15": dict(
+  technique="operand-type rule for timestamp deltas (wrap-safe 32-bit subtraction before widening), lockset analysis of sender / time-decoder state",
+  text="Decides that RTP timestamp differences in the global decoders and the sender are formed in 32-bit modular arithmetic and sign-extended before they are scaled, and that the shared decoder / sender state is touched under its mutex. Does not decide the numerical NTP mapping.",
+  note="Trusts: int32 conversion of a uint32 difference yields the shortest signed distance.",
+  ref="3 C15"),
+ "C20": dict(
+  technique="use enumeration of Request.URL in the marshaller, constant agreement between sibling writers/readers of the track token, range-index provenance, origin classification of handler-context fields, dominance ordering of URL probes, who-reads on the described URL",
+  text="Decides that the request line is rendered only through CloneWithoutCredentials (which never copies user-info); that server writers and the SETUP reader agree on the track token and its length; that the number written is the media's index and the reader indexes with the parsed number; that every handler context receives Path/Query from the path/query results of the URL analysis applied to the request's URL; that Content-Base is the request URL plus '/'; that the path is probed only after the query probe failed; that the client resolves controls against the base URL and never the described URL; that URL-producing calls have their error examined. Does not decide that resolution and analysis are inverse on all strings.",
+  note="Trusts: net/url String/Parse round trip; Media.URL string concatenation semantics (value level).",
+  ref="3 C20"),
 }
 
 NA = {
